@@ -29,7 +29,7 @@ QuoteOf(fl) == IF fl \in {10, 18} THEN 39 ELSE IF fl \in {12, 20} THEN 34 ELSE 0
 IsMysql(fl) == fl \in {17, 18, 20}
 IsAnsi(fl)  == fl \in {9, 10, 12}
 
-UpperMode == "unicode"          \* named deviation (a): the port upper-cases with strings.ToUpper
+UpperMode == EnvOr("VERIF_UPPER", "unicode")          \* named deviation (a): the port upper-cases with strings.ToUpper
 Lookup(w) == KwLookup(UpKey(w, UpperMode))
 
 SQuote == 39  DQuote == 34  Tick == 96  BSlash == 92
